@@ -16,6 +16,9 @@
 #include <exception>
 #include <fstream>
 #include <iostream>
+#include <locale>
+#include <sstream>
+#include <stdexcept>
 #include <unistd.h>
 
 // ---------------------------------------------------------------- sanitizer plumbing
@@ -29,7 +32,7 @@ extern "C" __attribute__((used)) const char *__ubsan_default_options()
 }
 extern "C" __attribute__((used)) const char *__tsan_default_options()
 {
-  return "halt_on_error=0:suppress_equal_stacks=0:suppress_equal_addresses=0:exitcode=0:report_signal_unsafe=0:history_size=4";
+  return "halt_on_error=0:suppress_equal_stacks=0:suppress_equal_addresses=0:exitcode=0:report_signal_unsafe=0:history_size=7";
 }
 
 namespace
@@ -39,7 +42,15 @@ namespace
 // called by the TSan runtime for every report (weak hook in the runtime)
 extern "C" void __tsan_on_report(void *)
 {
-  __atomic_fetch_add(&tsan_reports, 1u, __ATOMIC_RELAXED);
+  // a run that floods (hundreds of reports, each symbolised) says nothing more than its first reports did:
+  // the process ends with its own exit code, which the driver reads as "ThreadSanitizer reports in this run"
+  if (__atomic_fetch_add(&tsan_reports, 1u, __ATOMIC_RELAXED) + 1 >= 40)
+    {
+      static const char msg[] = "gwbsim: 40 ThreadSanitizer reports in one process, stopping\n";
+      if (write(2, msg, sizeof(msg) - 1) < 0)
+        {}
+      _exit(81);
+    }
 }
 
 namespace sim
@@ -99,8 +110,38 @@ namespace
     return s;
   }
 
+  // The C++ runtime sets a few things up on first use (the locale machinery behind every stream, the number
+  // formatting caches). Whichever thread gets there first synchronises with all later users, and in a process
+  // that starts cold that thread would be one of the simulated clients: ThreadSanitizer would then see an ordering
+  // between client threads that has nothing to do with the library. The main thread does it here, once.
+  void warm_runtime()
+  {
+    std::locale loc;
+    std::ostringstream o;
+    o << 1.5 << ' ' << 42 << ' ' << 7ul << ' ' << true << ' ' << std::string("x") << std::endl;
+    std::istringstream i("2.5 17 abc");
+    double d = 0;
+    long l = 0;
+    std::string w;
+    i >> d >> l >> w;
+    std::stringstream both;
+    both << d << l;
+    std::ifstream in;
+    std::ofstream out;
+    std::string n = std::to_string(l) + std::to_string(d);
+    volatile double parsed = std::strtod(n.c_str(), nullptr);
+    (void) parsed;
+    try
+      {
+        throw std::runtime_error("warm");
+      }
+    catch (std::exception &)
+      {}
+  }
+
   int cmd_exec(const std::string &path, bool verbose)
   {
+    warm_runtime();
     const std::string json = read_file(path);
     Scenario s;
     std::string err;
@@ -112,8 +153,9 @@ namespace
     std::printf("BEGIN 0\n");
     std::fflush(stdout);
     RunResult r = execute(s);
-    // same scenario again in the same process: the event log must be identical
-    RunResult r2 = execute(s);
+    // same scenario again in the same process: the event log must be identical (a cold-start scenario is about
+    // what a process does first, so it has no second execution)
+    RunResult r2 = s.cold ? r : execute(s);
     std::printf("END 0 %s\n", one_line(result_to_json(r, verbose)).c_str());
     std::printf("REDO %s\n", r.hash == r2.hash && r.violations.size() == r2.violations.size() ? "same" : "DIFFERENT");
     std::fflush(stdout);
@@ -177,10 +219,16 @@ int main(int argc, char **argv)
   const std::string cmd = argv[1];
   if (cmd == "gen" && argc >= 6)
     {
-      Scenario s;
-      if (!generate(argv[2], std::strtoull(argv[3], nullptr, 10), std::strtoull(argv[4], nullptr, 10), argv[5], s))
-        return 3;
-      std::printf("%s\n", scenario_to_json(s, true).c_str());
+      // gen <property> <seed> <run> <tier> [<count>]: with a count, one scenario per line for runs run..run+count-1
+      const uint64_t first = std::strtoull(argv[4], nullptr, 10);
+      const uint64_t count = argc >= 7 ? std::strtoull(argv[6], nullptr, 10) : 1;
+      for (uint64_t r = first; r < first + count; ++r)
+        {
+          Scenario s;
+          if (!generate(argv[2], std::strtoull(argv[3], nullptr, 10), r, argv[5], s))
+            return 3;
+          std::printf("%s\n", argc >= 7 ? one_line(scenario_to_json(s, false)).c_str() : scenario_to_json(s, true).c_str());
+        }
       return 0;
     }
   if (cmd == "exec" && argc >= 3)
